@@ -233,7 +233,9 @@ impl<
                 self.seek_from_start(offset.try_into().map_err(|_| Error::InvalidOffset)?)?
             }
             SeekFrom::End(offset) => {
-                self.seek_from_end((-offset).try_into().map_err(|_| Error::InvalidOffset)?)?
+                // (`-offset` overflows for `i64::MIN`)
+                let back = offset.checked_neg().ok_or(Error::InvalidOffset)?;
+                self.seek_from_end(back.try_into().map_err(|_| Error::InvalidOffset)?)?
             }
             SeekFrom::Current(offset) => {
                 self.seek_from_current(offset.try_into().map_err(|_| Error::InvalidOffset)?)?
